@@ -611,6 +611,14 @@ def sole_outcome(ctx, outs, label):
                 R.ok(rid, label)
                 continue
             raise AnalysisError(f"{label}: several normal outcomes with the same effects but different results")
+        # "look something up; nothing found -> nothing to do": the exit is guarded by `<computed value> is None`.  Whether the work it
+        # skips was only ever meant for a found value cannot be judged here - not a verdict
+        for c_, pol_ in norm_guards([(c0, True) for c0 in conjuncts(x.conds)]):
+            if isinstance(c_, App) and c_.op in ("is", "is not") and Const(None) in c_.args and (c_.op == "is") == pol_:
+                other = [a_ for a_ in c_.args if a_ != Const(None)]
+                if other and not isinstance(other[0], Sym) and not (isinstance(other[0], App) and (other[0].op.startswith("attr:") or other[0].op == "idx")):
+                    raise AnalysisError(f"{label}: a normal exit taken when a looked-up value is None skips part of the work of the other exits - "
+                                        f"cannot judge whether that work applies without the value")
         fi = None
         for f in ctx.repo.all_functions():
             if x.node is f.node or any(n is x.node for n in ast.walk(f.node)):
